@@ -40,6 +40,8 @@ type caseJ struct {
 	Reqs      []schedReq `json:"reqs,omitempty"`       // sched: site, variant, yield points, what was sent
 	Word      []int      `json:"word,omitempty"`       // sched: which request runs its next segment
 	BlockedAt []int      `json:"blocked_at,omitempty"` // sched: [position in the word, request] of the first grant that ended in a mutex wait
+	Init      []view     `json:"init,omitempty"`       // sched: what the locations held before the requests
+	Serial    [][]view   `json:"serial,omitempty"`     // sched, non-commuting requests: the states of the sequential orders
 	Site2     string     `json:"site2,omitempty"`      // forced2: the site of request 2
 	Yield     string     `json:"yield,omitempty"`
 	Variant   string     `json:"variant,omitempty"`
@@ -111,7 +113,7 @@ func coqCase(c caseJ) string {
 	case c.Mode == "sched":
 		rs := make([]string, len(c.Reqs))
 		for i, r := range c.Reqs {
-			rs[i] = fmt.Sprintf("mkSreq %q %d%%nat %s", r.Site, r.Variant, coqStrs(r.Yields))
+			rs[i] = fmt.Sprintf("mkSreq %q %d%%nat %s %s", r.Site, r.Variant, lib.CoqBool(r.Replace), coqStrs(r.Yields))
 		}
 		blocked := "None"
 		if len(c.BlockedAt) == 2 {
@@ -129,11 +131,23 @@ func coqCase(c caseJ) string {
 	var rel []string
 	for i, v := range c.Views {
 		vs[i] = fmt.Sprintf("(%q,%s)", v.Name, coqIDs(v.IDs))
-		if c.Mode == "sched" {
+		if c.Mode == "sched" && len(c.Serial) == 0 {
 			rel = append(rel, fmt.Sprintf("(%q,%s,%s)", v.Name, lib.CoqBool(v.Primary), coqIDs(v.Relevant)))
 		}
 	}
-	return fmt.Sprintf("mkCase %q %s %s [%s] %d [%s]", c.Site, mode, coqIDs(c.Acked), strings.Join(vs, ";"), c.Extra, strings.Join(rel, ";"))
+	viewList := func(l []view) string {
+		ss := make([]string, len(l))
+		for i, v := range l {
+			ss[i] = fmt.Sprintf("(%q,%s)", v.Name, coqIDs(v.IDs))
+		}
+		return "[" + strings.Join(ss, ";") + "]"
+	}
+	alts := make([]string, len(c.Serial))
+	for i, a := range c.Serial {
+		alts[i] = viewList(a)
+	}
+	return fmt.Sprintf("mkCase %q %s %s [%s] %d [%s] %s [%s]", c.Site, mode, coqIDs(c.Acked), strings.Join(vs, ";"), c.Extra,
+		strings.Join(rel, ";"), viewList(c.Init), strings.Join(alts, ";"))
 }
 
 func ackedOf(ok []bool) []int {
@@ -223,6 +237,10 @@ func runSchedEpisode(w *world, ops []opSpec, word []int) caseJ {
 		return c
 	}
 	c.Acked = ackedOf(res.ok)
+	c.Init = ep.init
+	if ep.serial != nil {
+		c.Serial = ep.serial(c.Acked)
+	}
 	for _, v := range ep.views {
 		ids := v.read()
 		sort.Ints(ids)
@@ -402,6 +420,17 @@ func main() {
 			}
 			add(s, caseJ{Site: s.name, Variant: s.variant, Mode: "stress", N: n, Seed: rng.U64()})
 		}
+	}
+	// key-value clause with an inherited value: a state with neither value nor tombstone is visible
+	{
+		budget := 2500 * time.Millisecond
+		if o.Thorough() {
+			budget = 12 * time.Second
+		}
+		cj := kvAncestorStress(w, budget)
+		run.Add("stress:keyvalue.PutData/ancestor", coqCase(cj), cj, key(cj))
+		run.Count("mode:stress")
+		run.Dist["schedules-tried:keyvalue.PutData/ancestor"] += int(cj.Seed)
 	}
 	if o.Thorough() {
 		run.Extra["race_detector"] = raceRun(o.Seed, o.OutDir)
